@@ -183,8 +183,18 @@ def run_check(prop, tier, seed, replay_path=None):
         # ---------------------------------------------------------------- correspond
         res = Result()
         mod.correspond(ctx, res)
-        spec_fail = [d for d in res.disagreements if d["kind"] == "spec" and not d.get("finding")]
-        model_fail = [d for d in res.disagreements if d["kind"] == "model" and not d.get("finding")]
+        # a disagreement tagged with a finding id is tolerated ONLY while that finding is listed as known for this
+        # property (known_findings.json); once it has been fixed (or was never listed) the tag suppresses nothing
+        known_ids = {f.get("id") for f in known}
+
+        def untolerated(d):
+            return not (d.get("finding") and d["finding"] in known_ids)
+        stale_tags = sorted({d["finding"] for d in res.disagreements if d.get("finding") and d["finding"] not in known_ids})
+        if stale_tags:
+            out_lines.append("NOTE: property=%s disagreements tagged with finding(s) %s that are not listed as known: counted as violations"
+                             % (prop, ", ".join(stale_tags)))
+        spec_fail = [d for d in res.disagreements if d["kind"] == "spec" and untolerated(d)]
+        model_fail = [d for d in res.disagreements if d["kind"] == "model" and untolerated(d)]
         if model_fail:
             broken.append({"what": "correspondence", "detail": "%d disagreement(s) impl vs model" % len(model_fail)})
         if spec_fail and not any(b["what"] == "correspondence" for b in broken):
@@ -203,7 +213,7 @@ def run_check(prop, tier, seed, replay_path=None):
             except InfraError:
                 raise
             searched = {"evaluations": res2.evaluations, "found": 0}
-            spec_fail = [d for d in res2.disagreements if d["kind"] == "spec" and not d.get("finding")]
+            spec_fail = [d for d in res2.disagreements if d["kind"] == "spec" and untolerated(d)]
             searched["found"] = len(spec_fail)
             res.evaluations += res2.evaluations
             res.nontrivial_keys |= res2.nontrivial_keys
